@@ -51,6 +51,7 @@ func genC12(rng *rand.Rand, tier string) *core.Plan {
 	p.Ops = append(p.Ops, core.Op{K: "query", S: fmt.Sprint(rng.Intn(1 << 30)), A: int64(rng.Intn(1 << 20))})
 	p.Cfg["maporder"] = rng.Intn(2) // tape-chosen iteration order of Go maps in the code under test
 	p.Cfg["families"] = 1 + rng.Intn(2)
+	p.Cfg["fieldmodes"] = rng.Intn(2)
 	return p
 }
 
@@ -157,7 +158,15 @@ func queryC12(c *core.RunCtx, ra, rk *run, op core.Op) {
 		answers = append(answers, answer{l.name, err, rs})
 		if err != nil {
 			for _, kk := range rk.unknownKeys(q, before) {
+				if err == nil {
+					break
+				}
 				if strings.Contains(err.Error(), "tag key: "+kk) {
+					err = nil
+				}
+				// every node rejected the statement; the root reports the not-found that arrived last, which
+				// is the stranger's "metric not found" when that one is the slowest
+				if err != nil && l.lay.StrangerDB != "" && strings.Contains(err.Error(), "metric not found") {
 					err = nil
 				}
 			}
